@@ -11,12 +11,37 @@ from . import iv_common as I
 MC_CFG = "CONSTANT WordNA = {}\nCONSTANT Deviations = {}\nCONSTANT NumTable <- MCNum\nINIT Init\nNEXT Next\nCHECK_DEADLOCK FALSE\nINVARIANT InvBed\nINVARIANT InvSeq\n"
 
 
+def thick_of(m, tid, ftype):
+    """does transcript tid of gene model m have children of the given type (level 1)?"""
+    for f in m["feats"]:
+        if dec(f["ftype"]) == ftype and any(dec(k) == "Parent" and tid in [dec(v) for v in vs] for k, vs in f["attrs"]):
+            return True
+    return False
+
+
 def bed_fields(d, arg, **kw):
     try:
         s = d.bed12(arg, **kw)
         return {"raise": False, "fields": [enc(x) for x in s.split("\t")]}
     except ValueError:
         return {"raise": True}
+
+
+def bed_clause(got, want, thick_present):
+    """what C18 fixes of a BED12 answer: ValueError iff the blocks do not span; twelve fields; chromStart, chromEnd, blockCount, blockSizes,
+    blockStarts; thickStart / thickEnd when thick features are present.  The other fields (chrom, name, score, strand, itemRgb, thick bounds
+    without thick features) follow the transcription of bed12(): a difference there is drift, not a verdict."""
+    if got["raise"] != want["raise"]:
+        return "bed12_valueerror"
+    if got["raise"]:
+        return None
+    g, w = got["fields"], want["fields"]
+    if len(g) != 12:
+        return "bed12_fields"
+    fixed = [1, 2, 9, 10, 11] + ([6, 7] if thick_present else [])
+    if any(g[i] != w[i] for i in fixed):
+        return "bed12_fields"
+    return "drift" if g != w else None
 
 
 def check_model(ctx, m, e, fa):
@@ -40,8 +65,10 @@ def check_model(ctx, m, e, fa):
                 except Exception as ex:  # noqa
                     ctx.violation(case, "bed12_%s_raised:%s" % (form, type(ex).__name__), {"id": tid, "message": str(ex)[:120]})
                     continue
-                if got != b["r"]:
-                    which = "bed12_valueerror" if got["raise"] != b["r"]["raise"] else "bed12_fields"
+                which = bed_clause(got, b["r"], thick_of(m, tid, "CDS"))
+                if which == "drift":
+                    ctx.extra["alg_drift"] = ctx.extra.get("alg_drift", 0) + 1
+                elif which:
                     ctx.violation(case, "%s_%s" % (which, form), {"id": tid, "observed": [dec(x) for x in got.get("fields", [])],
                                                                       "expected": [dec(x) for x in b["r"].get("fields", [])]})
             # the SAME handle is asked again for the same transcript with other arguments, and then with the first ones again:
@@ -58,8 +85,10 @@ def check_model(ctx, m, e, fa):
                 except Exception as ex:  # noqa
                     ctx.violation(case, "bed12_%s_raised:%s" % (vname, type(ex).__name__), {"id": tid, "message": str(ex)[:120]})
                     continue
-                if got != want:
-                    which = "bed12_valueerror" if got["raise"] != want["raise"] else "bed12_fields"
+                which = bed_clause(got, want, False if vname == "thin" else thick_of(m, tid, "exon" if vname != "default_again" else "CDS"))     # (thin_featuretype is not part of the statement)
+                if which == "drift":
+                    ctx.extra["alg_drift"] = ctx.extra.get("alg_drift", 0) + 1
+                elif which:
                     ctx.violation(case, "%s_%s" % (which, vname), {"id": tid, "arguments": kw, "observed": [dec(x) for x in got.get("fields", [])],
                                                                      "expected": [dec(x) for x in want.get("fields", [])]})
             # the alternative converter agrees on the block geometry whenever the blocks span the transcript
@@ -121,6 +150,15 @@ def replay(ctx, rec):
         raise core.CannotReplay("no executable case in this replay file")
     m = c["model"]
     e = I.oracle(ctx, [m])[0]
+    # (in the run the reference file is rewritten for every model: do the same here, so that anything remembered per file NAME is stale)
+    from gffutils.feature import Feature
+    fa = ctx.path("ref.fa")
+    with open(fa, "w") as fh:
+        fh.write(">chrR\n" + "T" * 80 + "\n")
+    try:
+        Feature(seqid="chrR", start=1, end=4, strand="+").sequence(fa)
+    except Exception:  # noqa
+        pass
     n0 = len(ctx.violations)
-    check_model(ctx, m, e, ctx.path("ref.fa"))
+    check_model(ctx, m, e, fa)
     return len(ctx.violations) > n0
